@@ -2,7 +2,7 @@ use crate::{
     graph::Reader,
     model::{
         document::{Document, DocumentInline},
-        is_ref_url, InlineRange, Position,
+        is_ref_url, is_wiki_ref_url, InlineRange, Position,
     },
 };
 pub struct Parser {
@@ -26,10 +26,12 @@ impl Parser {
     pub fn url_at(&self, position: Position) -> Option<String> {
         // only a link that names a note leads anywhere in the library: an address, an
         // absolute path or an anchor does not, and the graph does not follow it either
-        self.document
-            .link_at(position)
-            .and_then(|link| link.url())
-            .filter(|url| is_ref_url(url))
+        self.document.link_at(position).and_then(|link| {
+            link.url().filter(|url| match link.is_wiki_link() {
+                true => is_wiki_ref_url(url),
+                false => is_ref_url(url),
+            })
+        })
     }
 
     // The range of the destination of the link at the position, found in the source text:
@@ -43,7 +45,7 @@ impl Parser {
         let end = self.offset(range.end)?;
         let source = self.content.get(start..end)?;
 
-        if !is_ref_url(&url) {
+        if !(is_ref_url(&url) || (link.is_wiki_link() && is_wiki_ref_url(&url))) {
             return None;
         }
 
